@@ -62,9 +62,9 @@ pub fn raw_package(max_decls: usize) -> impl Strategy<Value = RawPackage> {
   let decl = (
     0..7u8,
     0..4u8,
-    proptest::bool::weighted(0.6),
+    proptest::bool::weighted(0.45),
     proptest::collection::vec(any::<u16>(), 0..=2),
-    proptest::collection::vec(any::<u16>(), 0..=2),
+    proptest::collection::vec(any::<u16>(), 0..=3),
     prop_oneof![6 => Just(0u8), 3 => Just(1u8), 1 => Just(2u8)],
     0..4u8,
     0..4u8,
@@ -569,12 +569,15 @@ pub fn build(raw: &RawPackage) -> Package {
   for (i, d) in decls.iter().enumerate() {
     if retained.contains(&i) {
       for j in &d.impl_refs {
-        if !retained.contains(j) && !decls[*j].exported {
+        // referenced from an implementation position only: must be dropped
+        if !retained.contains(j) {
           rec.has_impl_only_private = true;
         }
       }
       for j in &d.sig_refs {
-        if !decls[*j].exported {
+        // kept only because a signature names it (its own module does not
+        // export it, or it is not an entrypoint export)
+        if !decls[*j].exported || !entry_modules.contains(&decls[*j].module) {
           rec.has_sig_private = true;
         }
       }
